@@ -3,15 +3,22 @@ Same machinery as C13 (harness/C13.py); the oracle measures, in virtual time, ho
 from harness import common as C
 from harness import C13 as base
 
-META = dict(base.META)
-META.update({
+META = {
+    "level": "proof",
     "level_text": "props/C14.v proves both directions on the model of serve/wait shared with C13: the refutation c14_prompt_refuted (an explicit 2-thread schedule reaching a state "
                   "where the waiter's reply is ready while it polls an empty stream: serve releases the receive lock and notifies before it dispatches) and c14_only_this_window "
                   "(in every reachable state a waiter whose reply has been processed and that cannot move is either polling an empty stream itself or sleeping behind a thread "
                   "that holds / has just released the receive lock). The check replays random schedules of the real code under a virtual clock and reports any lateness; the two "
                   "window shapes are the known finding F5, anything else is a new violation.",
-    "level_note": base.META["level_note"] + " Lateness is measured in virtual time; wall-clock scheduling is outside.",
-})
+    "level_note": "Trusted: Coq kernel, pygen, extraction+driver, the virtual Lock/Condition/poll/clock (harness/vsched.py). Lateness is measured in virtual time; wall-clock "
+                  "scheduling is outside the model.",
+    "technique": "Coq: refutation by explicit schedule + invariant-based classification of every blocked waiter; virtual-clock schedule replay of the real code",
+    "gen": ["serve"],
+    "shapes": ["serve.*", "protocol.Connection.serve", "protocol.Connection._dispatch"],
+    "models": ["serve"],
+    "model_files": ["Serve"],
+    "assumptions": ["threading.Condition semantics", "virtual time: the clock advances only when no thread is enabled"],
+}
 
 
 def run(ctx):
